@@ -294,6 +294,14 @@ class C03(Plugin):
                           'elems': [rng.choice(pool)], 'entry': rng.choice(OPT_PUT_ENTRIES)}
                     if cur is None and op['entry'] == 'replace':
                         op['entry'] = 'put'
+        if op is None and rng.random() < 0.12:
+            op = self.gen_virt(rng)
+            if op is not None:
+                if rng.random() < cfg['p_twin']:
+                    tw = progen.relayout(rng, run.root.src, 6)
+                    if tw != run.root.src:
+                        op['twin'] = tw
+                return op
         if op is None:
             cs = containers(tree)
             if not cs:
@@ -519,6 +527,8 @@ class C03(Plugin):
                     new = ast.parse(f'with a as {t}: pass').body[0].items[0].optional_vars
                 setattr(node, field, new)
             return exp
+        if mode == 'virt':
+            return self.expected_virt(exp, node, op)
         lst = getattr(node, field, None)
         if not isinstance(lst, list):
             return None
@@ -641,6 +651,8 @@ class C03(Plugin):
         field = op['field']
         mode = op['mode']
         opts = O.dec_opts(op.get('opts'))
+        if mode == 'virt':
+            return self.do_virt(f, op, opts)
         code = self.code_for(op)
         elems = op.get('elems') or []
         kind = op.get('kind')
@@ -795,7 +807,7 @@ class C03(Plugin):
             if op.get('elems') and op['a'] == op['b']:
                 e += ['insert', 'view_insert', 'extend', 'prextend']
             return e
-        return {'one': ONE_ENTRIES, 'del_one': DEL_ENTRIES, 'insert': [op['entry']], 'subview': [op['entry']], 'opt_put': OPT_PUT_ENTRIES,
+        return {'one': ONE_ENTRIES, 'del_one': DEL_ENTRIES, 'insert': [op['entry']], 'subview': [op['entry']], 'virt': [op['entry']], 'opt_put': OPT_PUT_ENTRIES,
                 'opt_del': OPT_DEL_ENTRIES}[mode]
 
     # -- run hooks ----------------------------------------------------------------------------------------------------
@@ -891,3 +903,184 @@ class C03(Plugin):
                     e2 = e
                 run.stats['twin_requests'] += 1
                 self.judge('layout twin', exp, twin, e2, op)
+
+
+# ======================================================================================================================
+# virtual combined fields (_args, _bases, _attrs, Dict._all, _body): the model is the merged, source-ordered item list
+
+VIRT_POS = {'call': ['x', 'f(y)', '1', 'x.y', '[x]'], 'pattern': ['x', '1', '[x, y]', 'C()', '"s"']}
+VIRT_KW = {'call': ['k=1', 'z=w', 'kk=f(y)'], 'pattern': ['c=d', 'k=1', 'kk=[x]']}
+DICT_ITEMS = ['k: v', '1: x', '"s": f(y)', '**d', 'x.y: z']
+
+
+def virt_containers(tree):
+    """[(path, node, field, flavour)] vetted virtual containers."""
+    out = []
+    in_fstr = set()
+    for n in ast.walk(tree):
+        if isinstance(n, ast.JoinedStr):
+            for m in ast.walk(n):
+                in_fstr.add(id(m))
+    for path, node, parent, field, idx in iter_paths(tree):
+        if id(node) in in_fstr:
+            continue
+        if isinstance(node, ast.Call) and not any(isinstance(a, (ast.Starred, ast.GeneratorExp)) for a in node.args) \
+                and all(k.arg is not None for k in node.keywords):
+            out.append((path, node, '_args', 'call'))
+        elif isinstance(node, ast.ClassDef) and not any(isinstance(a, ast.Starred) for a in node.bases) and all(k.arg is not None for k in node.keywords):
+            out.append((path, node, '_bases', 'call'))
+        elif isinstance(node, ast.MatchClass):
+            out.append((path, node, '_attrs', 'pattern'))
+        elif isinstance(node, ast.Dict):
+            out.append((path, node, '_all', 'dict'))
+    return out
+
+
+def virt_items(node, field):
+    """Merged item list of a virtual field in source order: ('pos', node) | ('kw', name, node) | ('pair', k, v) | ('unpack', v)."""
+    if field in ('_args', '_bases'):
+        pos = node.args if field == '_args' else node.bases
+        items = [('pos', a) for a in pos] + [('kw', k.arg, k.value) for k in node.keywords]
+        key = {id(a): (a.lineno, a.col_offset) for a in pos}
+        key.update({id(k.value): (k.lineno, k.col_offset) for k in node.keywords})
+        return sorted(items, key=lambda it: key[id(it[-1])])
+    if field == '_attrs':
+        return [('pos', p) for p in node.patterns] + [('kw', a, p) for a, p in zip(node.kwd_attrs, node.kwd_patterns)]
+    if field == '_all':
+        return [('unpack', v) if k is None else ('pair', k, v) for k, v in zip(node.keys, node.values)]
+    raise KeyError(field)
+
+
+def virt_parse(flavour, text):
+    if flavour == 'dict':
+        d = ast.parse('{' + text + '}', mode='eval').body
+        return ('unpack', d.values[0]) if d.keys[0] is None else ('pair', d.keys[0], d.values[0])
+    if flavour == 'call':
+        c = ast.parse('f(' + text + ')', mode='eval').body
+        return ('kw', c.keywords[0].arg, c.keywords[0].value) if c.keywords else ('pos', c.args[0])
+    m = O.harness_ast('pattern', 'C(' + text + ')')
+    return ('kw', m.kwd_attrs[0], m.kwd_patterns[0]) if m.kwd_attrs else ('pos', m.patterns[0])
+
+
+def virt_store(node, field, items):
+    if field in ('_args', '_bases'):
+        setattr(node, 'args' if field == '_args' else 'bases', [it[1] for it in items if it[0] == 'pos'])
+        node.keywords = [ast.keyword(arg=it[1], value=it[2]) for it in items if it[0] == 'kw']
+    elif field == '_attrs':
+        node.patterns = [it[1] for it in items if it[0] == 'pos']
+        node.kwd_attrs = [it[1] for it in items if it[0] == 'kw']
+        node.kwd_patterns = [it[2] for it in items if it[0] == 'kw']
+    else:
+        node.keys = [None if it[0] == 'unpack' else it[1] for it in items]
+        node.values = [it[-1] for it in items]
+
+
+def virt_valid(field, items):
+    """Positional items must all precede keyword items (then the result is valid and its placement unambiguous)."""
+    if field == '_all':
+        return True
+    seen_kw = False
+    names = set()
+    for it in items:
+        if it[0] == 'kw':
+            seen_kw = True
+            if it[1] in names:
+                return False
+            names.add(it[1])
+        elif seen_kw:
+            return False
+    return True
+
+
+VIRT_ENTRIES = ['put_slice', 'attr', 'view_setslice', 'view_delslice', 'insert', 'append', 'put_none']
+
+
+class _VirtMixin:
+    def gen_virt(self, rng):
+        tree = self.run.root.a
+        cs = virt_containers(tree)
+        if not cs:
+            return None
+        path, node, field, flavour = rng.choice(cs)
+        items = virt_items(node, field)
+        n = len(items)
+        if not virt_valid(field, items):
+            return None
+        a = rng.randint(0, n)
+        b = rng.randint(a, n)
+        k = rng.choice((0, 1, 1, 2, 3))
+        elems = []
+        for _ in range(k):
+            if flavour == 'dict':
+                elems.append(rng.choice(DICT_ITEMS))
+            else:
+                elems.append(rng.choice(VIRT_KW[flavour] if rng.random() < 0.4 else VIRT_POS[flavour]))
+        entry = rng.choice(VIRT_ENTRIES)
+        if entry == 'attr':
+            a, b = 0, n
+        elif entry == 'view_delslice' or entry == 'put_none':
+            elems = []
+        elif entry == 'insert':
+            b = a
+            elems = elems[:1] or [rng.choice(VIRT_POS.get(flavour, DICT_ITEMS))]
+        elif entry == 'append':
+            a = b = n
+            elems = elems[:1] or [rng.choice(VIRT_KW.get(flavour, DICT_ITEMS))]
+        if not elems and a == b:
+            return None
+        op = {'k': 'c03', 'mode': 'virt', 'path': [list(p) for p in path], 'field': field, 'flavour': flavour, 'a': a, 'b': b,
+              'elems': elems, 'entry': 'virt_' + entry}
+        exp = self.expected(tree, op)
+        if exp is None:
+            return None
+        return op
+
+    def expected_virt(self, exp, node, op):
+        items = virt_items(node, op['field'])
+        try:
+            new = [virt_parse(op['flavour'], t) for t in op['elems']]
+        except Exception:
+            return None
+        items[op['a']:op['b']] = new
+        if not virt_valid(op['field'], items):
+            return None
+        if op['field'] == '_attrs' or op['flavour'] == 'pattern':
+            pass
+        if op['field'] in ('_args', '_bases') and len({it[1] for it in items if it[0] == 'kw'}) != sum(1 for it in items if it[0] == 'kw'):
+            return None
+        virt_store(node, op['field'], items)
+        return exp
+
+    def do_virt(self, f, op, opts):
+        field, a, b = op['field'], op['a'], op['b']
+        code = ', '.join(op['elems']) if op['elems'] else None
+        e = op['entry'][5:]
+        n = len(virt_items(f.a, field))
+        if e == 'put_slice':
+            return f.put_slice(code, a, b, field, **opts)
+        if e == 'put_none':
+            return f.put_slice(None, a, b, field, **opts)
+        if e == 'attr':
+            if code is None:
+                delattr(f, field)
+            else:
+                setattr(f, field, code)
+            return None
+        if e == 'view_setslice':
+            if code is None:
+                del getattr(f, field)[a:b]
+            else:
+                getattr(f, field)[a:b] = code
+            return None
+        if e == 'view_delslice':
+            del getattr(f, field)[a:b]
+            return None
+        if e == 'insert':
+            return getattr(f, field).insert(code, a, **opts) if a < n else f.insert(code, 'end', field, **opts)
+        if e == 'append':
+            return f.append(code, field, **opts)
+        raise O.Skip('entry')
+
+
+for _name in ('gen_virt', 'expected_virt', 'do_virt'):
+    setattr(C03, _name, getattr(_VirtMixin, _name))
